@@ -209,6 +209,9 @@ func (m *Machine) equalsV(t types.Type, x, y value) value {
 		if x.t == nil {
 			return true
 		}
+		if x.t == rtypeType {
+			return types.Identical(x.v.(rtype).t, yi.v.(rtype).t)
+		}
 		if !types.Comparable(x.t) {
 			panic(m.runtimeError(fmt.Sprintf("comparing uncomparable type %s", x.t)))
 		}
